@@ -334,6 +334,55 @@ pub fn run(ctx: &Ctx) -> Report {
         }
         cases.push(Case::new("A3_digit_run_contexts", prog));
     }
+    // ---- A4: a literal means the same wherever it stands ------------------------------------------
+    // One function per literal (a function has its own constant table): the literal as an initialiser, bare
+    // inside an interpolation, in brackets inside an interpolation, as an operand, as key and value of a map
+    // literal and as an element - before and after one another in the same function.  Every occurrence
+    // denotes the same number, and the interpolated text is the text `String.from` gives.
+    let mut n_a4 = 0;
+    {
+        let mut pool: Vec<(String, f64)> = Vec::new();
+        for (i, (t, d)) in lits.iter().enumerate() {
+            if i % (if thorough { 7 } else { 41 }) == 0 {
+                pool.push((t.clone(), *d));
+            }
+        }
+        for t in ["0", "1", "2", "0.1", "0.5", "2.5", "10", "255", "256", "1000000", "9007199254740993", "1152921504606846976", "9223372036854775807", "9223372036854775808", "18446744073709551616", "0.30000000000000004", "123456789012345678901234567890"] {
+            pool.push((t.to_string(), t.parse().unwrap()));
+        }
+        for chunk in pool.chunks(40) {
+            let mut prog: Vec<Stmt> = Vec::new();
+            for (k, (t, d)) in chunk.iter().enumerate() {
+                let lit = || Expr::RawNum(t.clone(), *d);
+                let name = format!("p{}", k);
+                let body = vec![
+                    var_stmt("a", lit()),
+                    var_stmt("s", Expr::Interp(vec![Part::Expr(lit())])),
+                    var_stmt("b", lit()),
+                    var_stmt("u", Expr::Interp(vec![Part::Lit("<".into()), Part::Expr(Expr::Paren(Box::new(lit()))), Part::Lit(">".into())])),
+                    var_stmt("m", Expr::MapLit(vec![(lit(), lit())])),
+                    var_stmt("v", Expr::VecLit(vec![lit(), Expr::Interp(vec![Part::Expr(lit())]), lit()])),
+                    print_stmt(Expr::VecLit(vec![
+                        bin(BinOp::Eq, var("a"), var("b")),
+                        bin(BinOp::Eq, bin(BinOp::Add, var("a"), num(0.0)), lit()),
+                        bin(BinOp::Eq, var("s"), invoke(var("String"), "from", vec![var("b")])),
+                        bin(BinOp::Eq, var("u"), bin(BinOp::Add, bin(BinOp::Add, s("<"), var("s")), s(">"))),
+                        bin(BinOp::Eq, invoke(var("m"), "get", vec![var("a")]), var("b")),
+                        bin(BinOp::Eq, index(var("v"), num(0.0)), index(var("v"), num(2.0))),
+                        bin(BinOp::Eq, index(var("v"), num(1.0)), var("s")),
+                        invoke(var("a"), "derives", vec![var("Num")]),
+                        invoke(var("b"), "derives", vec![var("Num")]),
+                        invoke(index(var("v"), num(2.0)), "derives", vec![var("Num")]),
+                        bin(BinOp::Eq, invoke(var("s"), "to_num", vec![]), var("a")),
+                    ])),
+                ];
+                prog.push(fn_stmt(func(&name, &[], body)));
+                prog.push(expr_stmt(call(var(&name), vec![])));
+                n_a4 += 1;
+            }
+            cases.push(Case::new("A4_a_literal_means_the_same_wherever_it_stands", prog));
+        }
+    }
     // vacuity guard: a program that ends early in the model (an error escaping a probe) would silently skip
     // everything behind that point
     let ended_early = std::sync::atomic::AtomicUsize::new(0);
@@ -392,14 +441,14 @@ pub fn run(ctx: &Ctx) -> Report {
         "A1: every double +-(1 + j/2^m) * 2^e for every exponent e (normal and subnormal) and j < 2^m, plus boundaries (zeros, subnormal limits, max, 2^53 and 2^63 neighbours, 10^k and neighbours for k in [-323,308], NaN, infinities), built exactly from integer literals and powers of two: printed text must equal the model's shortest-round-trip positional text, text must parse back to the identical number (sign of zero included), interpolation must print the same text. A2: every literal digits[.digits] up to 5/6 characters must equal the exactly constructed nearest double (nearestness of the model's value is itself checked in exact integer arithmetic), plus long literals around halfway points, 1280 integer literals of 15-19 digits, and the printed text of every A1 value (where the model fixes it) used as a literal. A3: every digit string up to 3 digits in each look-ahead context.",
         json!({"mantissa_bits_enumerated": m_bits, "literal_length": lit_len, "digit_run_length": 3}),
     );
-    let total = n_a1 + n_a2 + n_long + n_int + n_text_lits + n_a3 * 7 + n_neg;
+    let total = n_a1 + n_a2 + n_long + n_int + n_text_lits + n_a4 + n_a3 * 7 + n_neg;
     report.cov("evaluations", json!(total));
     report.cov("programs", json!(stats.evaluations));
     report.cov("distinct_nontrivial", json!(total));
     report.cov("states", json!(total));
     report.cov("transitions", json!(total));
     report.cov("traces_validated_against_impl", json!(total));
-    report.cov("values_by_family", json!({"A1_doubles": n_a1, "A2_literals": n_a2, "A2_long_literals": n_long, "A2_integer_literals_15_to_19_digits": n_int, "A1_printed_text_as_literal": n_text_lits, "A3_positive_contexts": n_a3 * 7, "A3_negative_contexts": n_neg}));
+    report.cov("values_by_family", json!({"A1_doubles": n_a1, "A2_literals": n_a2, "A2_long_literals": n_long, "A2_integer_literals_15_to_19_digits": n_int, "A1_printed_text_as_literal": n_text_lits, "A4_a_literal_means_the_same_wherever_it_stands": n_a4, "A3_positive_contexts": n_a3 * 7, "A3_negative_contexts": n_neg}));
     report.assumptions = vec![
         "the model's text for a double is produced from the host's exponent formatter at increasing precision and expanded by hand; a defect shared by that formatter and the implementation's formatter would go unnoticed (the round-trip identity is checked independently of any formatter)".into(),
         "long-literal nearestness relies on the host parser (checked exactly for the short literals)".into(),
